@@ -31,6 +31,7 @@ type c01Obs struct {
 	BlockRoot string // root of the block merkle tree after this height (via GetBlockRootWithNewTxRoots)
 	Bal       []string
 	Events    []string
+	Proofs    []string // block-merkle inclusion proofs of every height against the current root (read from the hash file by position)
 }
 
 func c01Observe(ls *ledgerstore.LedgerStoreImp, h uint32, accts []common.Address, txs []*types.Transaction) (c01Obs, error) {
@@ -48,6 +49,18 @@ func c01Observe(ls *ledgerstore.LedgerStoreImp, h uint32, accts []common.Address
 	probe := common.Uint256{1, 2, 3}
 	br := ls.GetBlockRootWithNewTxRoots(h+1, []common.Uint256{probe})
 	o.BlockRoot = br.ToHexString()
+	for m := uint32(0); m <= h; m++ {
+		pr, err := ls.GetMerkleProof(m, h)
+		if err != nil {
+			o.Proofs = append(o.Proofs, fmt.Sprintf("%d:err:%v", m, err))
+			continue
+		}
+		ps := fmt.Sprintf("%d:", m)
+		for _, x := range pr {
+			ps += fmt.Sprintf("%x,", x[:6])
+		}
+		o.Proofs = append(o.Proofs, ps)
+	}
 	for _, a := range accts {
 		for _, tok := range []common.Address{nutils.OntContractAddress, nutils.OngContractAddress} {
 			v, err := ls.GetStorageItem(tok, a[:])
@@ -81,7 +94,7 @@ var c01Points = []string{"pre-block-commit", "post-block-commit", "post-event-co
 
 func TestC01_CrashPointRecovery(t *testing.T) {
 	ev := harn.For("C01").SetLevel("fault_enumeration").
-		Rule("chains of 2-6 blocks with 0-4 signed ONT/ONG transfers (zero, normal, over-balance, gas price 0 or 2500) among 4 accounts; for EVERY block and EVERY crash point (pre-block-commit after the eager merkle append, post-block, post-event, post-state) the live data dir is copied, reopened and compared with the uncrashed run, then continued with the remaining blocks; plus torn-tail truncation of merkle_tree.db on pre-block snapshots. Non-trivial = snapshot strictly between two of the three commits of a block carrying >=1 successful transfer; distinct by (chain, height, point)").
+		Rule("chains of 2-6 blocks with 0-4 signed ONT/ONG transfers (zero, normal, over-balance, gas price 0 or 2500) among 4 accounts; for EVERY block and EVERY crash point (pre-block-commit after the eager merkle append, post-block, post-event, post-state) the live data dir is copied, reopened and compared with the uncrashed run (height, tip, state root, block root, balances, events, block-merkle inclusion proofs of every height), then continued with the remaining blocks; plus torn-tail truncation of merkle_tree.db on pre-block snapshots. Non-trivial = snapshot strictly between two of the three commits of a block carrying >=1 successful transfer; distinct by (chain, height, point)").
 		Assume("cp -r of the live directory at a hook point equals the on-disk image after a process kill there (goleveldb writes its journal with write() per batch; the hash store uses os.File.Write); power-loss reordering of unsynced writes is out of scope")
 	bk := fix.Key(fix.KP256, 0)
 	users := []*fix.ZooKey{bk, fix.Key(fix.KP256, 1), fix.Key(fix.KP256, 2), fix.Key(fix.KP256, 3)}
